@@ -1,5 +1,5 @@
 PROP = {
-    "lean_modules": ["GunYu.Props.C17", "GunYu.Props.C17Reach", "GunYu.Props.C17RunId", "GunYu.Props.C17Migrate", "GunYu.Props.C17RunIdSeq", "GunYu.Props.C17RunIdFix", "GunYu.Props.C17Gen", "GunYu.Props.C17Fresh"],
+    "lean_modules": ["GunYu.Props.C17", "GunYu.Props.C17Reach", "GunYu.Props.C17RunId", "GunYu.Props.C17Migrate", "GunYu.Props.C17RunIdSeq", "GunYu.Props.C17RunIdFix", "GunYu.Props.C17Gen", "GunYu.Props.C17Fresh", "GunYu.Props.C17GcRelabel"],
     "gens": ["c17guards"],
     "audit_namespaces": ["GunYu.Props.C17"],
     "required_theorems": [
@@ -48,6 +48,12 @@ PROP = {
         # the freshness hypotheses of goodChecks_decide_good / bareChecks_decide_bare decided on the dump (op c17fresh)
         "GunYu.Props.C17.namesOk_decides",
         "GunYu.Props.C17.idsOk_decides",
+        # gc beside a failover relabel: the relabel stamps the time of the write, a gc pass with a stale live-id snapshot spares
+        # a record younger than the stale duration and the id's hash entry (Props/C17GcRelabel.lean)
+        "GunYu.Props.C17.update_stamps_now",
+        "GunYu.Props.C17.delStale_only_old",
+        "GunYu.Props.C17.delStale_fresh_not_all",
+        "GunYu.Props.C17.gcLoop_head_fresh",
         # the REPAIRED SetRunId (pendingRunId; Props/C17RunIdFix.lean)
         "GunYu.Props.C17.setRunIdP_good",
         "GunYu.Props.C17.setRunIdSeq_fixed_good",
@@ -70,6 +76,9 @@ PROP = {
         "c17_gcStaleCp": '{ data, err := checkpoint.GetAllCheckpointHash(cli) if err != nil { return } if len(data)%2 == 1 { return } for i := 0; i < len(data)-1; i += 2 { runId := data[i] cpn := data[i+1] _, exist := runIdMap[runId] total, deleted, err := checkpoint.DelStaleCheckpoint(cli, cpn, runId, config.GetSyncerConfig().Channel.StaleCheckpointDuration, exist) if err != nil { } if !exist && total == deleted { err = checkpoint.DelCheckpointHash(cli, runId) if err == nil { } else { } } } }',
         "c17_gc_frame": ['inputs := config.GetSyncerConfig().Input.Redis.SelNodes(true, config.SelNodeStrategyMaster)', 'inputs = append(inputs, config.GetSyncerConfig().Input.Redis.SelNodes(true, config.SelNodeStrategySlave)...)', 'runIdMap := make(map[string]struct{}, len(inputs)*2)', 'for _, input := range inputs { input.Type = config.RedisTypeStandalone cli, err := client.NewRedis(input) if err != nil { return } id1, id2, err := redis.GetRunIds(cli) if err != nil { cli.Close() return } runIdMap[id1] = struct{}{} runIdMap[id2] = struct{}{} cli.Close() }', 'gcStaleCp := <closure>', 'if config.GetSyncerConfig().Output.Redis.Type == config.RedisTypeCluster { cli, err := client.NewRedis(*config.GetSyncerConfig().Output.Redis) if err != nil { return } gcStaleCp(cli) cli.Close() } else if config.GetSyncerConfig().Output.Redis.Type == config.RedisTypeStandalone { outputs := config.GetSyncerConfig().Output.Redis.SelNodes(true, config.SelNodeStrategyMaster) for _, out := range outputs { cli, err := client.NewRedis(out) if err != nil { return } gcStaleCp(cli) cli.Close() } }'],
         "c17_gc_live_ids": ['runIdMap[id1] = struct{}{}', 'runIdMap[id2] = struct{}{}'],
+        # SetCheckpoint stamps <id>_mtime with the time of the WRITE (Model/Checkpoint.lean cpEntries `now`; Props/C17GcRelabel.lean):
+        # the statements of its body that mention the mtime
+        "c17_setcheckpoint_mtime": ['kvs := []interface{}{cp.Key, cp.MTimeKey(), time.Now().UnixNano()}'],
         # how a start orders the reported ids before UpdateCheckpoint (Model/Checkpoint.lean startIds / nextStart)
         "c17_start_order": ['ordered := ids',
                             'if len(ids) > 1 && cpRunId == ids[1] && ids[1] != ids[0] { ordered = []string{ids[1], ids[0]} }',
@@ -91,6 +100,7 @@ PROP = {
         {"name": "C17st", "pkg": "./syncer/", "test": "TestVerifC17Start"},
         {"name": "C17sys", "pkg": "./syncer/", "test": "TestVerifC17Sys"},
         {"name": "C17sq", "pkg": "./syncer/", "test": "TestVerifC17Seq"},
+        {"name": "C17gr", "pkg": "./cmd/", "test": "TestVerifC17GcRelabel"},
     ],
     "driver": "drv_C17",
     "rule": "c17u (UpdateCheckpoint): corpus (D13 witnesses); generated bookkeeping states on the target double: nothing stored / rename / "
@@ -162,6 +172,11 @@ PROP = {
             "error replies planted at the (k+1)-th write request of chosen attempts (k in 0..5, one call in four failing entirely before the hash is repointed): per attempt "
             "the applied requests, per call the return value and the in-memory field, the final position vs BookSys.setRunId; monitors setrunid-calls-lose-position, "
             "setrunid-nil-without-relabel (a call that returned nil: position readable under [new, other]); both fire on lost / smaller / other database only. "
+            "c17gr (gc BESIDE a failover relabel, package cmd, harness C17gr; Props/C17GcRelabel.lean): the REAL gcStaleCheckpoint polls the source double (ids [old, other]); when its `hgetall redis-gunyu-checkpoint-hash` reaches the target double - "
+            "after the poll, before the hash is read - the double's Hook runs the REAL RedisOutput.SetRunId(new id) of the link's RedisOutput (the source failed over, PSYNC CONTINUE); the stored position is OLD (older than staleCheckpointDuration "
+            "in three cases of four, as a long-running link leaves it; young; without _mtime), 1-3 databases, thresholds 1 h / 12 h; the gc's requests after the relabel and the position after every prefix vs gcReqs on the dumped post-relabel "
+            "state with live = the ids polled BEFORE the relabel (op c17g); monitor gc-beside-relabel-loses-live-position: the real next start (ids [new, old]) after every request prefix of the pass reads a position not smaller, same database "
+            "(the record the relabel wrote is protected only by the time SetCheckpoint stamps it with: source fact c17_setcheckpoint_mtime, theorem update_stamps_now). "
             "Op c17sp (package syncer, harness C17sq; Model/BookRunIdSeq.lean srRunP = the REPAIRED SetRunId): ONE RedisOutput, the real SetRunId called with 2-3 DIFFERENT ids in turn (a failover of the source between two calls) under virtual time; "
             "error replies planted on write requests (the step stops after k writes) AND on the first request of an attempt (a read: the step fails with all / none of its writes applied, AttemptF.rfail); in half of the cases a call's first "
             "attempt stops at one of its last writes and its retries fail on a read (the call fails with cfg.RunId behind the label: the next call runs the finishing step); position in database 0 in two cases of three; each connection's requests are "
@@ -194,6 +209,7 @@ PROP = {
         "calls with DIFFERENT ids in sequence (a second failover between two calls of ONE RedisOutput): Model/BookRunIdSeq.lean has BOTH state machines - srRun (before the repair bf252d5: setRunIdSeq_partial holds when every failover is learnt while cfg.RunId is the master id, and the general statement setRunIdSeq_stmt is refuted: setRunIdSeq_stmt_refuted, the witness of C17-F1) and srRunP (the repaired code with pendingRunId: dial error, finishing step and relabel proper each with any fate). Props/C17RunIdFix.lean setRunIdSeq_fixed proves the general statement for the repaired machine: a fresh RedisOutput on any reachable state, any failovers (each while the hash maps the master id, its id never used before) and calls: the SAME position stays readable (invariant InvP over cfg.RunId / pendingRunId). Not covered: a failover while the position is still labelled with the id before (no request of the relabel applied; the position is unreadable under the reported ids - outside the property, counted sq_unreadable_after_failover), an id that returns (a source failing BACK to an id used before; ids are fresh in Reach), a dial error is in the model but not planted by the harness (vfSysOutput's connection factory always succeeds)",
         "REGENERATED decisions (harness/extract/c17guards.go -> Gen/CheckpointGuards.lean, Props/C17Gen.lean gen_*_eq_model): GetCheckpoint's selection condition (larger offset, newer mtime on a tie), DelStaleCheckpoint's `newest` / candidate / spare conditions and the initial newest. NOT regenerated (still hand model + correspondence ops c17u / c17g + facts): fetchCheckpoint's field loop (HasPrefix / Contains matching, which field overwrites which), UpdateCheckpoint's re-key plan (which requests in which order, the `dbid < 0` and `rewritten` branches), the field lists of the two HDELs, gcStaleCp's `!exist && total == deleted` - they are interleaved with I/O, gofn translates whole pure functions only; a condition moved into a helper function makes the generator fail (broken tie, no guess)",
         "migrate_start_exact / migrate_start_inferred keep their own preconditions (MigStartPre): they are not derived from a reachability predicate of the bidirectional writers",
+        "gc beside a relabel (round-8 mutation: SetCheckpoint keeping the caller's OLD mtime): the model always wrote `now` (cpEntries) but op c17u takes `now` from the mtime the real request carries, so the tie could not see a stale stamp; now pinned by the source fact c17_setcheckpoint_mtime (the statements of SetCheckpoint that mention the mtime), stated as theorems (update_stamps_now; delStale_only_old / delStale_fresh_not_all / gcLoop_head_fresh: a pass whose live-id snapshot predates the relabel deletes only records with mtime <= before and never the hash entry of an id holding a younger record) and EXECUTED (c17gr: poll, real SetRunId, hash read). The two halves are not composed into one theorem over `Reach` (that fetch reads back the stamped mtime from the HSET is shown on the example rxT1b only), and gc's live set in `Reach.gc` / `Reach.session` still CONTAINS the reported ids (a stale snapshot is covered by these theorems and c17gr, not by reach_gc_safe)",
         "gc_spares_newest_of_live_id / gc_passes_exceptNewest are lemmas that restate the definition (kept for the audit, not required); the property's second sentence is gc_spares_live_id (whole gc pass, ANY live id) and, on reachable states, reach_gc_spares_label",
     ],
 }
